@@ -119,6 +119,7 @@ def violations (multi : List Role) (T : List Row) : List Viol :=
   dedup (T.flatMap fun a => T.filterMap fun b =>
     if conflict multi a b && !shareLock a b then some (a.field, normPair a.role b.role) else none)
 
+
 /-- every lockset is duplicate-free (the extractor emits sets) -/
 def locksNodup (T : List Row) : Bool := T.all fun r => decide r.locks.Nodup
 
@@ -126,11 +127,29 @@ def locksNodup (T : List Row) : Bool := T.all fun r => decide r.locks.Nodup
 def Premise (multi : List Role) (T : List Row) : Prop :=
   ∀ a, a ∈ T → ∀ b, b ∈ T → conflict multi a b = true → shareLock a b = true
 
-/-- rows as emitted by the extractor: `(role, field, kind (0 = read, otherwise write), locks)` -/
-def Row.ofRaw (r : Nat × Nat × Nat × List Nat) : Row :=
-  ⟨r.1, r.2.1, if r.2.2.1 = 0 then Kind.R else Kind.W, r.2.2.2⟩
+/-! ### grouped tables (what the extractor emits; evaluated group by group) -/
 
-def toRows (raw : List (Nat × Nat × Nat × List Nat)) : List Row := raw.map Row.ofRaw
+/-- the conflicts of one row against a list of rows -/
+def violationsOf (multi : List Role) (T : List Row) (a : Row) : List Viol :=
+  T.filterMap fun b =>
+    if conflict multi a b && !shareLock a b then some (a.field, normPair a.role b.role) else none
+
+/-- all rows of one location: `(field, [(role, kind (0 = read, otherwise write), locks)])` -/
+abbrev Group := Field × List (Role × Nat × List Lock)
+
+def groupRows (g : Group) : List Row :=
+  g.2.map fun r => ⟨r.1, g.1, if r.2.1 = 0 then Kind.R else Kind.W, r.2.2⟩
+
+/-- the flat table denoted by a grouped one -/
+def flattenG (G : List Group) : List Row := G.flatMap groupRows
+
+/-- no location has two groups -/
+def keysNodup (G : List Group) : Bool := decide (G.map (·.1)).Nodup
+
+/-- the checker evaluated group by group (rows of different locations never conflict); equal as a
+    set to `violations multi (flattenG G)` when `keysNodup G` (`Lemmas/C36Lockset.lean`) -/
+def violationsG (multi : List Role) (G : List Group) : List Viol :=
+  dedup (G.flatMap fun g => (groupRows g).flatMap (violationsOf multi (groupRows g)))
 
 /-! ### the canonical two-thread program of a pair of rows (used for the counterexamples) -/
 
